@@ -1068,7 +1068,7 @@ class Image(DataTensor):
 
     def same_domain_as(self, other: Image) -> bool:
         """Check if this and another image have the same cube domain."""
-        return self.same_domain_as(other.grid())
+        return self._grid.same_domain_as(other.grid())
 
     @overload
     def grid(self: TImage) -> Grid:
